@@ -6,6 +6,7 @@ import WhVerif.Model.C01Ckpt
 import WhVerif.Model.C01Query
 import WhVerif.Model.C01U32
 import WhVerif.Model.C01Input
+import WhVerif.Model.C01Pedigree
 namespace WhVerif.Driver.C01
 open Lean WhVerif.Proto WhVerif.C01
 
@@ -135,6 +136,57 @@ def answerJson : Answer → Json
   | .cost c => Json.mkObj [("q", Json.str "cost"), ("cost", ofNat c)]
   | .partitioning β => Json.mkObj [("q", Json.str "part"), ("beta", ofBoolList β)]
 
+
+/-! ### the API level: `Pedigree` calls, reads with sample ids (`c01.pedigree`) -/
+
+def parsePedOp (j : Json) : Option PedOp := do
+  match ← asArr? j with
+  | [Json.str "ind", id, g, l] =>
+    let ls ← (← asArr? l).mapM (fun x => match x with
+      | Json.null => some none
+      | _ => (natList? x).map some)
+    some (.addInd (← asNat? id) (← natList? g) ls)
+  | [Json.str "rel", f, m, c] => some (.addRel (← asNat? f) (← asNat? m) (← asNat? c))
+  | _ => none
+
+def parseApi (j : Json) : Option Api := do
+  let ops ← (← getList? j "ops").mapM parsePedOp
+  let den ← getNat? j "den"
+  let reads ← (← getList? j "reads").mapM (fun r => do
+    let sample ← getNat? r "sample"
+    let variants ← (← getList? r "variants").mapM (fun e => do
+      match ← natList? e with
+      | [p, a, w] => some (p, a, w)
+      | _ => none)
+    some ({ sample, variants } : ApiRead))
+  let positions ← match getObj? j "positions" with
+    | none => some none
+    | some Json.null => some none
+    | some v => (natList? v).map some
+  let recomb ← getNatList? j "recomb"
+  let distrust := (getBool? j "distrust").getD false
+  some { ops, den, reads, positions, recomb, distrust }
+
+def pmapJson (m : PMap) : Json :=
+  ofList (fun (o : Option (Nat × Nat)) => match o with
+    | none => Json.null
+    | some p => ofNatList [p.1, p.2]) m
+
+def optOptJson : Option (Option (List Nat)) → Json
+  | none => Json.str "out-of-range"
+  | some none => Json.null
+  | some (some l) => ofNatList l
+
+/-- the state of the `Pedigree` object after a prefix of the calls, as the accessors show it -/
+def pedJson (P : Ped) (askIds : List Nat) (nvar : Nat) : Json :=
+  Json.mkObj [
+    ("ids", ofNatList P.ids),
+    ("triples", ofList (fun t => ofNatList [t.1, t.2.1, t.2.2]) P.triples),
+    ("variant_count", ofOptNat P.vc),
+    ("index_of", ofList (fun id => ofOptNat (P.idToIndex id)) askIds),
+    ("genotype_by_id", ofList (fun id => ofList (fun v => ofOptNat (P.genotypeById id v)) (List.range nvar)) askIds),
+    ("gl_by_id", ofList (fun id => ofList (fun v => optOptJson (P.glById id v)) (List.range nvar)) askIds)]
+
 def handle (op : String) (j : Json) : Option Json :=
   if op == "c01.mkinst" then
     match (getObj? j "raw").bind parseRaw with
@@ -201,6 +253,45 @@ def handle (op : String) (j : Json) : Option Json :=
         some (Json.mkObj ([("k", ofNat k), ("path", ofList (fun p => ofNatList [p.1, p.2]) path),
           ("beta", ofBoolList (partOf I path)), ("tau", ofNatList (path.map (·.2))),
           ("superreads", srJson (superReadsOf I path)), ("answers", run qs), ("answersB", run qsB)] ++ costField))
+  else if op == "c01.pedigree" then
+    -- `ops` = the calls on a fresh `Pedigree`; answer: the object's state after ALL calls (or which call failed),
+    -- the partitions per transmission value, and the resolved instance of the solver
+    match parseApi j with
+    | none => some badInput
+    | some A =>
+      let askIds := (getNatList? j "ask").getD []
+      let nvar := (getNat? j "nvar").getD 0
+      -- run the calls one by one to report the index of the first failing call
+      let rec go (k : Nat) (ops : List PedOp) (P : Ped) : Except Nat Ped :=
+        match ops with
+        | [] => .ok P
+        | o :: rest => match P.step o with
+          | none => .error k
+          | some P' => go (k + 1) rest P'
+      match go 0 A.ops {} with
+      | .error k => some (Json.mkObj [("failed_call", ofNat k)])
+      | .ok P =>
+        let nt := 4 ^ P.triples.length
+        let parts := if nt ≤ 256 then ofList (fun t => match P.ppMap t with
+            | none => Json.null
+            | some m => pmapJson m) (List.range nt) else Json.null
+        let probes := ((getList? j "probe").getD []).filterMap (fun pj => do
+          let c ← getNat? pj "c"
+          let p ← getNat? pj "p"
+          let bs ← (getObj? pj "bits").bind boolList?
+          let t ← getNat? pj "t"
+          some (c, p, bs, t))
+        let res := A.resolve
+        let instJ := match res with
+          | none => Json.null
+          | some (_, I) => instJson I
+        let probeJ := ofList (fun (q : Nat × Nat × List Bool × Nat) =>
+            Json.mkObj [("glue", ofOptNat (glueColCost A P q.1 q.2.1 q.2.2.1 q.2.2.2)),
+                        ("inst", match res with
+                          | none => Json.null
+                          | some (_, I) => ofOptNat (colCost I q.1 q.2.2.1 q.2.2.2))]) probes
+        some (Json.mkObj [("ped", pedJson P askIds nvar), ("partition_count", ofNat P.partitionCount),
+          ("partitions", parts), ("inst", instJ), ("probes", probeJ)])
   else if op == "c01.cost32" then
     -- the DP in the code's 32-bit arithmetic with UINT_MAX as infinity, and the no-overflow bound
     match getInst j with
